@@ -1958,6 +1958,9 @@ func (c16) execClass(ws []string, recs []c16Pair) (string, []Fail) {
 }
 
 func (c16) Exec(c string) (string, []Fail) {
+	if strings.HasPrefix(c, "conc ") || strings.HasPrefix(c, "race conc ") {
+		return c16ExecConc(c) // c16_conc.go
+	}
 	parts := strings.Split(c, " | ")
 	if len(parts) < 2 || len(parts) > 3 {
 		return "bad-op", nil
@@ -2776,4 +2779,5 @@ func (c16) Gen(rng *rand.Rand, tier string, emit func(string)) {
 	c16GenPipe(rng, tier, emit, join)
 	c16GenArgv(rng, tier, emit)
 	c16GenArgvx(rng, tier, emit)
+	c16GenConc(rng, tier, emit) // last: the cases above keep their PRNG draws
 }
